@@ -424,16 +424,16 @@ var mapKeys = []string{"a", "b"}
 func (m *mapM) ops() []string {
 	var o []string
 	for _, k := range mapKeys {
-		o = append(o, "Load("+k+")", "Store("+k+",1)", "Store("+k+",2)", "LoadOrStore("+k+",3)", "Delete("+k+")")
+		o = append(o, "Load("+k+")", "Store("+k+",1)", "Store("+k+",2)", "LoadOrStore("+k+",3)", "Delete("+k+")", "Store("+k+",nil)", "LoadOrStore("+k+",nil)", "Store("+k+",(*int)(nil))")
 	}
 	return append(o, "Range(all)", "Range(stop after first)")
 }
 func (m *mapM) classify(op int) int { return proceeds }
 func (m *mapM) applyModel(op int)   {}
 func mapApply(op int, load func(any) (any, bool), store func(any, any), los func(any, any) (any, bool), del func(any), rng func(func(any, any) bool)) string {
-	if op < 5*len(mapKeys) {
-		k := mapKeys[op/5]
-		switch op % 5 {
+	if op < 8*len(mapKeys) {
+		k := mapKeys[op/8]
+		switch op % 8 {
 		case 0:
 			v, ok := load(k)
 			return fmt.Sprint(v, ok)
@@ -446,11 +446,18 @@ func mapApply(op int, load func(any) (any, bool), store func(any, any), los func
 			return fmt.Sprint(v, l)
 		case 4:
 			del(k)
+		case 5:
+			store(k, nil) // a present key whose value is the nil interface
+		case 6:
+			v, l := los(k, nil)
+			return fmt.Sprint(v, l)
+		case 7:
+			store(k, (*int)(nil)) // a typed nil is an ordinary value
 		}
 		return ""
 	}
 	var seen []string
-	stop := op == 5*len(mapKeys)+1
+	stop := op == 8*len(mapKeys)+1
 	rng(func(k, v any) bool {
 		seen = append(seen, fmt.Sprint(k, "=", v))
 		return !stop
